@@ -3,7 +3,7 @@
    Seek targets and request lengths are restricted to landmark alphabets; TLC explores every history
    up to DEPTH calls and dumps the labelled state graph, whose edges are then replayed on the real code. *)
 EXTENDS Stream, Limbs
-CONSTANTS DEPTH, TIER
+CONSTANTS DEPTH, TIER, SEEDV
 VARIABLE depth
 L0 == <<0, 0, 0, 0, 0>>
 LI(x) == WOfInt(x, 5)
@@ -26,10 +26,15 @@ IsC11 == TIER \in {"c11", "c11t"}
 Deltas == IF TIER = "quick" THEN DeltasQ ELSE IF IsC11 THEN DeltasE ELSE DeltasT
 SeekSet == (IF IsC11 THEN {LI(0), LI(64)} ELSE {LI(d) : d \in Deltas}) \cup {WSub(L38, LI(d)) : d \in Deltas} \cup {WAdd(L38, LI(d)) : d \in {1, 64, 65}}
            \cup {WSub(L64m, LI(d)) : d \in (IF TIER = "quick" THEN {0, 63, 64} ELSE {0, 1, 62, 63, 64, 255, 256})}
-ApplySet == IF TIER = "quick" THEN {0, 1, 63, 64, 65, 256, 257, 321}
-            ELSE IF TIER = "c11" THEN {0, 1, 63, 64, 65, 193, 257, 321}
-            ELSE IF TIER = "c11t" THEN {0, 1, 2, 63, 64, 65, 66, 128, 129, 193, 255, 256, 257, 321}
-            ELSE {0, 1, 2, 63, 64, 65, 127, 129, 192, 255, 256, 257, 321, 513, 1025}
+\* request lengths: the block / buffer boundaries exactly, and one representative of each open interval between them whose
+\* value depends on the run's seed (A1 in 194..254: ends inside the fourth block of a chunk; A2 in 258..377: a chunk and a bit)
+A1 == 194 + ((SEEDV * 37) % 61)
+A2 == 258 + ((SEEDV * 53) % 120)
+A3 == 66 + ((SEEDV * 29) % 126)       \* 66..191
+ApplySet == IF TIER = "quick" THEN {0, 1, 63, 64, 65, 256, 257, A1, A2}
+            ELSE IF TIER = "c11" THEN {0, 1, 63, 64, 65, A1, 257, A2}
+            ELSE IF TIER = "c11t" THEN {0, 1, 2, 63, 64, 65, 66, 128, 129, 193, 255, 256, 257, 321, A1, A3}
+            ELSE {0, 1, 2, 63, 64, 65, 127, 129, 192, 255, 256, 257, 321, 513, 1025, A1, A2, A3}
 Nonces == IF TIER \in {"quick", "c11"} THEN {<<65535, 65535, 0, 0, 0>>} ELSE {<<65535, 65535, 0, 0, 0>>, <<4660, 22136, 0, 0, 0>>}
 Init == /\ depth = 0
         /\ \E v \in {"ietf", "c64"} : \E nz \in Nonces : (v = "c64" => nz = <<65535, 65535, 0, 0, 0>>) /\ InitFor(v, IF v = "c64" THEN L0 ELSE nz)
